@@ -438,6 +438,7 @@ var wordPools = [][]string{
 	{"4-door", "Ice cream", "5-o'clock", "7 up", "A b", "Élan vital", "9_to-five"},
 	{"élan", "ősz", "ночь", "ωμέγα", "ñandú"},
 	{"re\uFFFDplace", "100%", "a%sb", "'tis", "-ish", "(sic)", "iPhone", "mcDonald", "ſound"},
+	{"e\u0301clair", "ςa", "σa", "אבג", "zero\u200dwidth", "nul\x00l", "ǈx", "ǆx"},
 }
 
 // wlInput generates an input slice for NewWordList.
